@@ -2,22 +2,55 @@
 
 from __future__ import annotations
 
+import io
+import json
 from typing import Any, Dict, List, Optional
 
 from .core import HarnessError
 from . import rsclient
 
 
+def _call(req: Dict[str, Any]) -> Dict[str, Any]:
+    """One request/response over the shared harness process, read through a buffered reader (responses are
+    megabytes; the shared client reads its unbuffered pipe byte by byte)."""
+    client = rsclient.shared()
+    reader = getattr(client, "_c16_reader", None)
+    if reader is None:
+        reader = io.BufferedReader(client.proc.stdout, 1 << 20)  # type: ignore[arg-type]
+        client._c16_reader = reader  # type: ignore[attr-defined]
+    data = (json.dumps(req, separators=(",", ":")) + "\n").encode()
+    try:
+        client.proc.stdin.write(data)  # type: ignore[union-attr]
+        client.proc.stdin.flush()  # type: ignore[union-attr]
+        line = reader.readline()
+    except (BrokenPipeError, OSError) as exc:
+        raise HarnessError(f"rust harness pipe failed: {exc!r}")
+    if not line.endswith(b"\n"):
+        raise HarnessError(f"rust harness died mid-response (rc={client.proc.poll()}, got {len(line)} bytes) "
+                           f"on request {str(req)[:160]}")
+    return json.loads(line)
+
+
 def ops(batch: List[Dict[str, Any]]) -> List[Dict[str, Any]]:
     req = {"cmd": "c16.ops", "ops": batch}
-    try:
-        resp = rsclient.shared().call(req)
-    except HarnessError:
+    resp: Optional[Dict[str, Any]] = None
+    last: Optional[Exception] = None
+    for _attempt in range(3):
         # Every batch is self-contained (machines are created and dropped inside it), so a harness process
-        # that disappeared (killed from outside on the shared box) is replaced once; a crash caused by the
-        # request itself repeats and is reported as a harness error.
-        rsclient._shared = None
-        resp = rsclient.shared().call(req)
+        # that disappeared (killed from outside on the shared box) is replaced and the batch re-sent; a crash
+        # caused by the request itself repeats and is reported as a harness error (exit 2).
+        try:
+            resp = _call(req)
+            break
+        except HarnessError as exc:
+            last = exc
+            try:
+                rsclient.shared().proc.kill()
+            except Exception:
+                pass
+            rsclient._shared = None
+    if resp is None:
+        raise HarnessError(f"rust harness failed three times in a row: {last}")
     if not resp.get("ok"):
         raise HarnessError(f"c16.ops failed: {str(resp)[:300]}")
     res = resp["results"]
